@@ -1641,7 +1641,9 @@ theorem reg_bulkUpdate_tree (cfg : Cfg) (c c' : Coll T) (u : UMap T)
       · cases he
       · split at he
         · cases he
-        · simp only [Except.ok.injEq] at he; rw [← he]
+        · split at he
+          · cases he
+          · simp only [Except.ok.injEq] at he; rw [← he]
 
 /-! ## Non-vacuity: the hypotheses hold on concrete runs
 
